@@ -1,14 +1,180 @@
 (* C16 — Output ports fan out in order without duplicates.
-   Only statements, pins, non-vacuity examples and Print Assumptions. *)
+   Only statements (pinned), non-vacuity examples and Print Assumptions.
+   Models: OutPort/Spec.v (single-subscription automaton Sub1), OutPort/V1.v (default
+   port), OutPort/V2.v (output-port-v2), OutPort/Harness.v (scenarios, canonical
+   scheduler, oracle).  Proofs: OutPort/SpecProofs.v, V1Proofs.v, V2Proofs.v, HarnessProofs.v.
+
+   Reading guide.  `V1.run init ls = Some st` ranges over ALL label sequences, i.e. all
+   interleavings of publisher, subscribe calls, forwarding-task steps, handler steps and
+   actor terminations, for any number of subscriptions, any converters `cv`, any ring size.
+   `conv_of s ls = Some (a, c)`: subscription s was made in ls, for receiver a with
+   converter c.  `received st s`: what a's handler has received through s.
+   `pubs_after s ls`: the messages published after s was made.
+   `absv s a st`: subscription s seen alone (forwarder pc, backlog = accepted publishes the
+   forwarder has not taken yet, a's mailbox / received items that came through s, a alive). *)
 From Coq Require Import List NArith Bool Arith.
-From RV Require Import OutPort.Spec OutPort.V1 OutPort.V1Proofs OutPort.Harness.
+From RV Require Import OutPort.Spec OutPort.SpecProofs OutPort.Harness OutPort.HarnessProofs.
+From RV Require OutPort.V1 OutPort.V2 OutPort.V1Proofs OutPort.V2Proofs.
 Import ListNotations.
 
+(* ---------------- default port (tokio broadcast, one forwarding task per subscription) *)
+
+(* (1) order preserved, never twice, only converter-mapped messages published after the
+   subscription (None-mapped ones skipped): the received sequence is an order-preserving
+   sub-sequence, each published occurrence used at most once *)
+Theorem C16_v1_subsequence : forall C cv cap ls st s a c,
+  V1.run C cv cap (V1.init C) ls = Some st -> V1.conv_of C s ls = Some (a, c) ->
+  sublist (V1.received C st s) (filter_map (cv c) (V1.pubs_after C s ls)).
+Proof. exact V1Proofs.v1_subsequence. Qed.
+
+(* (2) every run of the port, projected on one subscription (labels of all other
+   subscriptions and actors erased), is a run of the single-subscription automaton *)
+Theorem C16_v1_refines_sub1 : forall C cv cap ls st s a c,
+  V1.run C cv cap (V1.init C) ls = Some st -> V1.conv_of C s ls = Some (a, c) ->
+  crun (Some cap) (cv c) ainit (V1.projs C s a ls) = Some (V1.absv C s a st).
+Proof. exact V1Proofs.v1_refines. Qed.
+
+(* (3) a subscriber that is never more than `cap` behind misses nothing: what it received
+   is a prefix of everything owed, and while its forwarder and actor live, received ++
+   mailbox ++ still-to-forward is exactly everything owed *)
+Theorem C16_v1_lag_bound : forall C cv cap ls st s a c,
+  V1.run C cv cap (V1.init C) ls = Some st -> V1.conv_of C s ls = Some (a, c) ->
+  V1.never_behind C cv cap (V1.init C) s ls ->
+  let x := V1.absv C s a st in
+  prefix (c_got x) (filter_map (cv c) (V1.pubs_after C s ls))
+  /\ (active x = true -> c_alive x = true ->
+      c_got x ++ c_mbox x ++ filter_map (cv c) (held x ++ c_backlog x)
+      = filter_map (cv c) (V1.pubs_after C s ls)).
+Proof. exact V1Proofs.v1_lag_bound. Qed.
+
+(* (4) one that lagged keeps receiving: from any point of a run on (e.g. right after a
+   Lagged skip), as long as it is not more than `cap` behind again, everything pending at
+   that point and everything published later is delivered in order or still pending *)
+Theorem C16_v1_after_lag : forall C cv cap ls1 ls2 st1 st2 s a c,
+  V1.run C cv cap (V1.init C) ls1 = Some st1 -> V1.run C cv cap st1 ls2 = Some st2 ->
+  V1.conv_of C s ls1 = Some (a, c) -> V1.never_behind C cv cap st1 s ls2 ->
+  let x1 := V1.absv C s a st1 in let x2 := V1.absv C s a st2 in
+  active x1 = true -> active x2 = true -> c_alive x2 = true ->
+  c_got x2 ++ c_mbox x2 ++ filter_map (cv c) (held x2 ++ c_backlog x2)
+  = c_got x1 ++ c_mbox x1 ++ filter_map (cv c) (held x1 ++ c_backlog x1 ++ V1.pubs_on C ls2).
+Proof. exact V1Proofs.v1_after_lag. Qed.
+
+(* (5) a dead (or any other) subscriber is inert: two runs of the port that agree on the
+   labels of subscription s and its receiver — whatever the other subscriptions and actors
+   do, stop, fail or get pruned — give s the same view *)
+Theorem C16_v1_dead_subscriber_inert : forall C cv cap ls1 ls2 st1 st2 s a c,
+  V1.run C cv cap (V1.init C) ls1 = Some st1 -> V1.run C cv cap (V1.init C) ls2 = Some st2 ->
+  V1.conv_of C s ls1 = Some (a, c) -> V1.conv_of C s ls2 = Some (a, c) ->
+  V1.projs C s a ls1 = V1.projs C s a ls2 ->
+  V1.absv C s a st1 = V1.absv C s a st2.
+Proof. exact V1Proofs.v1_inert. Qed.
+
+(* ... in one-step form: a step of another subscription's forwarder, of another actor
+   (including its termination) leaves the view of s untouched *)
+Theorem C16_v1_other_steps_invisible : forall C cv cap ls l st st' s a c,
+  V1.run C cv cap (V1.init C) ls = Some st -> V1.step C cv cap st l = Some st' ->
+  V1.conv_of C s (ls ++ [l]) = Some (a, c) -> V1.proj C s a l = [] ->
+  V1.absv C s a st' = V1.absv C s a st.
+Proof. exact V1Proofs.v1_frame. Qed.
+
+(* (6) publishing never blocks and touches only the channel *)
 Theorem C16_v1_publish_nonblocking : forall C cv cap (st : V1.state C) m,
   exists st', V1.step C cv cap st (V1.LPublish m) = Some st'
     /\ V1.tasks C st' = V1.tasks C st /\ V1.actors C st' = V1.actors C st
     /\ V1.order C st' = V1.order C st /\ V1.handles C st' = V1.handles C st
     /\ V1.rxcnt C st' = V1.rxcnt C st.
-Proof. exact publish_nonblocking. Qed.
+Proof. exact V1Proofs.publish_nonblocking. Qed.
 
+(* ---------------- v2 port *)
+Theorem C16_v2_publish_nonblocking : forall C cv (st : V2.state C) m,
+  exists st', V2.step C cv true st (V2.LPublish m) = Some st'
+    /\ V2.queue C st' = V2.queue C st ++ [V2.Data m] /\ V2.batch C st' = V2.batch C st
+    /\ V2.dp C st' = V2.dp C st /\ V2.subscribers C st' = V2.subscribers C st
+    /\ V2.actors C st' = V2.actors C st.
+Proof. exact V2Proofs.publish_nonblocking. Qed.
+
+(* ---------------- the single-subscription automaton itself *)
+Theorem C16_sub1_subsequence : forall cap conv ls c, crun cap conv ainit ls = Some c ->
+  sublist (c_got c) (filter_map conv (apubs ls)).
+Proof. exact sub1_subsequence. Qed.
+
+(* without a ring (v2) nothing is ever skipped *)
+Theorem C16_sub1_unbounded_exact : forall conv ls c, crun None conv ainit ls = Some c ->
+  prefix (c_got c) (filter_map conv (apubs ls))
+  /\ (active c = true -> c_alive c = true ->
+      c_got c ++ c_mbox c ++ filter_map conv (held c ++ c_backlog c) = filter_map conv (apubs ls)).
+Proof.
+  intros conv ls c H. split.
+  - eapply sub1_nocap_prefix; [reflexivity|eassumption].
+  - intros. eapply sub1_nocap_exact; [reflexivity|eassumption|assumption|assumption].
+Qed.
+
+(* ---------------- the executions compared with the implementation are runs of the models *)
+Theorem C16_canonical_v1_is_run : forall cap sc,
+  let '(_, st, acc) := X1.exec cap sc in
+  V1.run cspec cv cap (V1.init cspec) (rev acc) = Some st.
+Proof. exact P1.exec_is_run. Qed.
+
+Theorem C16_canonical_v2_is_run : forall sc,
+  let '(_, st, acc) := X2.exec sc in
+  V2.run cspec cv true (V2.init cspec) (rev acc) = Some st.
+Proof. exact P2.exec_is_run. Qed.
+
+(* the oracle's matcher decides exactly the sub-sequence / prefix relations of the theorems *)
+Theorem C16_oracle_sublist_iff : forall l1 l2, is_sublist l1 l2 = true <-> sublist l1 l2.
+Proof. intros l1 l2. split; [apply is_sublist_sound|apply is_sublist_complete]. Qed.
+
+Theorem C16_oracle_prefix_sound : forall l1 l2, is_prefix l1 l2 = true -> prefix l1 l2.
+Proof. exact is_prefix_sound. Qed.
+
+(* ---- statement pins ---- *)
+Check (C16_v1_subsequence : forall C cv cap ls st s a c,
+  V1.run C cv cap (V1.init C) ls = Some st -> V1.conv_of C s ls = Some (a, c) ->
+  sublist (V1.received C st s) (filter_map (cv c) (V1.pubs_after C s ls))).
+Check (C16_v1_dead_subscriber_inert : forall C cv cap ls1 ls2 st1 st2 s a c,
+  V1.run C cv cap (V1.init C) ls1 = Some st1 -> V1.run C cv cap (V1.init C) ls2 = Some st2 ->
+  V1.conv_of C s ls1 = Some (a, c) -> V1.conv_of C s ls2 = Some (a, c) ->
+  V1.projs C s a ls1 = V1.projs C s a ls2 -> V1.absv C s a st1 = V1.absv C s a st2).
+
+(* ---- non-vacuity ---- *)
+Local Open Scope N_scope.
+Definition ex_all := mkC 1 0 1 0.
+Definition ex_even := mkC 2 0 1 0.
+(* two subscriptions, a burst of 20 into a ring of 16 (lag), a re-subscription of actor 0,
+   actor 1 stopped, more publishes *)
+Definition ex_sc := mkScen [] ([OSub 0 ex_all; OSub 1 ex_even] ++ burst 0 5 ++ [OSettle] ++ burst 5 20
+                               ++ [OSub 0 ex_even; OSettle; OKill 1] ++ burst 25 3 ++ [OSettle]).
+Example ex_v1_result : X1.result 16 ex_sc =
+  [[0; 1; 2; 3; 4; 9; 10; 11; 12; 13; 14; 15; 16; 17; 18; 19; 20; 21; 22; 23; 24; 25; 26; 27];
+   [0; 2; 4; 10; 12; 14; 16; 18; 20; 22; 24]; [26]].
+Proof. vm_compute. reflexivity. Qed.
+Example ex_v2_result : X2.result ex_sc =
+  [[0; 1; 2; 3; 4; 5; 6; 7; 8; 9; 10; 11; 12; 13; 14; 15; 16; 17; 18; 19; 20; 21; 22; 23; 24; 25; 26; 27];
+   [0; 2; 4; 6; 8; 10; 12; 14; 16; 18; 20; 22; 24]; [26]].
+Proof. vm_compute. reflexivity. Qed.
+Example ex_oracle : check_C16 false 16 ex_sc (X1.result 16 ex_sc) = true
+                 /\ check_C16 true 16 ex_sc (X2.result ex_sc) = true
+                 /\ check_C16 true 16 ex_sc (X1.result 16 ex_sc) = false       (* a skipped item is rejected for v2 *)
+                 /\ check_C16 false 16 ex_sc [[0; 1; 1]; []; []] = false        (* a duplicate is rejected *)
+                 /\ check_C16 false 16 ex_sc [[1; 0]; []; []] = false.          (* a reordering is rejected *)
+Proof. vm_compute. repeat split; reflexivity. Qed.
+(* the canonical trace of the example really contains a Lagged step: subscription 0 is 20 behind *)
+Example ex_never_behind_fails :
+  let '(_, st, acc) := X1.exec 16 (mkScen [] ([OSub 0 ex_all] ++ burst 0 20)) in
+  V1.behind cspec st 0 = 20%nat.
+Proof. vm_compute. reflexivity. Qed.
+
+Print Assumptions C16_v1_subsequence.
+Print Assumptions C16_v1_refines_sub1.
+Print Assumptions C16_v1_lag_bound.
+Print Assumptions C16_v1_after_lag.
+Print Assumptions C16_v1_dead_subscriber_inert.
+Print Assumptions C16_v1_other_steps_invisible.
 Print Assumptions C16_v1_publish_nonblocking.
+Print Assumptions C16_v2_publish_nonblocking.
+Print Assumptions C16_sub1_subsequence.
+Print Assumptions C16_sub1_unbounded_exact.
+Print Assumptions C16_canonical_v1_is_run.
+Print Assumptions C16_canonical_v2_is_run.
+Print Assumptions C16_oracle_sublist_iff.
+Print Assumptions C16_oracle_prefix_sound.
